@@ -368,6 +368,13 @@ struct TemplateCore {
                                 tag.TrueOffset = 0;
 
                                 bool is_true{false};
+
+                                if ((end_offset - tag.Offset) > SizeT{0xFFFF}) {
+                                    // Too long for the 16-bit offsets of the tag: left as text.
+                                    storage->Drop(SizeT{1});
+                                    break;
+                                }
+
                                 tag.Length = SizeT16(end_offset - tag.Offset);
 
                                 do {
@@ -440,34 +447,60 @@ struct TemplateCore {
                                     const SizeT   first_offset =
                                         (SizeT((tag.TrueOffset < tag.FalseOffset) ? tag.FalseOffset : tag.TrueOffset) +
                                          tag.Offset);
+                                    // The values of 'true' and 'false' (an offset of zero: not given).
+                                    const SizeT true_start  = (tag.Offset + tag.TrueOffset);
+                                    const SizeT true_end    = (true_start + tag.TrueLength);
+                                    const SizeT false_start = (tag.Offset + tag.FalseOffset);
+                                    const SizeT false_end   = (false_start + tag.FalseLength);
 
                                     bool skip = false;
 
                                     while (s_tag < s_tag_end) {
+                                        SizeT s_tag_offset = 0;
+                                        SizeT s_tag_end_offset = 0;
+
                                         switch (s_tag->GetType()) {
                                             case TagType::Variable:
                                             case TagType::RawVariable: {
-                                                offset = s_tag->GetVariableTag().Offset;
+                                                const VariableTag &s_var = s_tag->GetVariableTag();
+
+                                                offset           = s_var.Offset;
+                                                s_tag_offset     = (s_var.Offset - TagPatterns::VariablePrefixLength);
+                                                s_tag_end_offset = (s_var.Offset + s_var.Length + TagPatterns::InLineSuffixLength);
                                                 break;
                                             }
 
                                             case TagType::Math: {
-                                                offset = s_tag->GetMathTag().Offset;
+                                                offset           = s_tag->GetMathTag().Offset;
+                                                s_tag_offset     = offset;
+                                                s_tag_end_offset = s_tag->GetMathTag().EndOffset;
                                                 break;
                                             }
 
                                             default: {
-                                                storage->Drop(SizeT{1});
-                                                s_tag = s_tag_end;
-                                                skip  = true;
+                                                skip = true;
                                             }
                                         }
 
-                                        if (offset >= first_offset) {
+                                        // The text around the sub-tags is copied from the value they belong to; a tag
+                                        // that is not wholly inside one of the two values cannot be rendered.
+                                        if (!skip &&
+                                            !((tag.TrueOffset != SizeT16{0}) && (s_tag_offset >= true_start) &&
+                                              (s_tag_end_offset <= true_end)) &&
+                                            !((tag.FalseOffset != SizeT16{0}) && (s_tag_offset >= false_start) &&
+                                              (s_tag_end_offset <= false_end))) {
+                                            skip = true;
+                                        }
+
+                                        if (skip) {
+                                            storage->Drop(SizeT{1});
                                             break;
                                         }
 
-                                        ++id;
+                                        if (offset < first_offset) {
+                                            ++id;
+                                        }
+
                                         ++s_tag;
                                     }
 
